@@ -86,6 +86,8 @@ def main():
   ap.add_argument("--checks", default=None)
   ap.add_argument("--full-suite", action="store_true")
   ap.add_argument("--skip-tests", action="store_true")
+  ap.add_argument("--needs", default="", help="what the change needs in order "
+                  "to manifest (one sentence, from the author's notes)")
   args = ap.parse_args()
   prop = args.prop.upper()
   checks = (args.checks or prop).upper().split(",")
@@ -93,7 +95,10 @@ def main():
   demo = os.path.join(args.src, "demo.py")
   wt = tempfile.mkdtemp(prefix="confirm-seeded-")
   os.rmdir(wt)
-  meta = {"name": args.name, "property": prop, "confirmed_at": time.strftime(
+  meta = {"name": args.name, "property": prop, "breaks": prop,
+          "needs_to_manifest": args.needs,
+          "author": "independent sub-agent given only the property text and a "
+                    "scratch worktree", "confirmed_at": time.strftime(
       "%Y-%m-%d %H:%M"), "repo_head": subprocess.check_output(
           ["git", "-C", "/repo", "rev-parse", "--short", "HEAD"], text=True
       ).strip()}
@@ -111,7 +116,7 @@ def main():
       meta["error"] = "patch does not apply: " + out[-400:]
       print(json.dumps(meta, indent=1))
       return 2
-    touched = [l[6:] for l in open(patch) if l.startswith("+++ b/")]
+    touched = [l[6:].strip() for l in open(patch) if l.startswith("+++ b/")]
     meta["touched"] = touched
     rc1, out1 = run([PY, "demo.py"], wt, env)
     meta["demo_with_change"] = {"exit": rc1, "tail": out1[-600:]}
